@@ -111,7 +111,7 @@ def union_models(doc):
     for k_ in list(tm):
         if k_[0] == 'StrEventDe':
             tm[('StrDeserializer',) + k_[1:]] = tm[k_]
-    models = [(r'<&str as (?:[\w:]+::)?de::IntoDeserializer<.*>>::into_deserializer|<&str as .*IntoDeserializer.*>::into_deserializer', M_into_deserializer)]
+    models = [(r'<&str as (?:[\w:]+::)?de::IntoDeserializer<.*>>::into_deserializer|<&str as .*IntoDeserializer.*>::into_deserializer|(?:[\w:]+::)?de::value::StrDeserializer::<.*>::new', M_into_deserializer)]
     return models, tm
 
 
